@@ -61,6 +61,19 @@ def check_tensor(t, line, fmt, packed, items, dok, what):
     want_dok = {tuple(c): fl(v) for c, v in dok}
     expect(t.to_dok() == want_dok, f"{what}: to_dok {t.to_dok()} != {want_dok}")
     expect(t.to_dok(explicit_zeros=True) == dict(want_items), f"{what}: to_dok(explicit_zeros) {t.to_dok(explicit_zeros=True)}")
+    # comparison, printing and scalar conversion go through the same read-back
+    from tensora import Tensor
+
+    r = eval(repr(t), {"Tensor": Tensor})   # noqa: S307 - repr is documented to be evaluable
+    expect(r.format == t.format and tuple(r.dimensions) == dims and r.to_dok() == want_dok, f"{what}: repr {repr(t)} does not evaluate to the same tensor")
+    expect((r == t) is True and (t == t) is True, f"{what}: == of equal tensors is not True")
+    other = dict(want_dok)
+    if all(d > 0 for d in dims):
+        c0 = tuple(0 for _ in dims)
+        other[c0] = other.get(c0, 0.0) + 1.0
+        expect((t == Tensor.from_dok(other, dimensions=dims, format=t.format)) is False, f"{what}: == of different tensors is not False")
+    if n == 0:
+        expect(float(t) == want_dok.get((), 0.0), f"{what}: float {float(t)}")
 
 
 def replay_line(line) -> list[tuple[str, str]]:
